@@ -1559,6 +1559,89 @@ def _vector_wrapper_check(ctx, inst: Inst, where, d_lo, d_hi, tol):
                     if (lo_v is not None and lo_v > d_lo + tol) or (hi_v is not None and hi_v < d_hi - tol):
                         problems.append(f"{f.qual}: `{norm(n)}` clamps components to [{lo_v!r}, {hi_v!r}] but the "
                                         f"element decodes raws to [{d_lo!r}, {d_hi!r}]")
+    # helpers that are handed the components (module-level function or method of the class): arithmetic there counts
+    for k in repo.mro(tcls):
+        if not _is_sub(repo, k, "TupleCoord"):
+            continue
+        for meth in ("serialize", "deserialize"):
+            f = k.methods.get(meth)
+            if f is None:
+                continue
+            params = [a.arg for a in f.node.args.args]
+            seeds = {params[1]} if meth == "serialize" and len(params) > 1 else set()
+            derived = _derived_names(f, seeds, from_reads=(meth == "deserialize"))
+            for c in calls(f.node, into_defs=True):
+                hit = [i for i, a in enumerate(c.args) if isinstance(a, ast.Name) and a.id in derived]
+                if not hit:
+                    continue
+                callee = None
+                if isinstance(c.func, ast.Name):
+                    cands = [g for g in repo.funcs.get(c.func.id, []) if g.module is f.module and g.cls is None
+                             and g.parent_fn is None]
+                    callee = cands[0] if len(cands) == 1 else None
+                    off = 0
+                elif isinstance(c.func, ast.Attribute) and isinstance(c.func.value, ast.Name) and c.func.value.id in ("self", "cls"):
+                    callee = repo.lookup_method(tcls, c.func.attr)
+                    off = 0 if callee is not None and any((ap(d) or "").split(".")[-1] == "staticmethod"
+                                                          for d in callee.node.decorator_list) else 1
+                if callee is None or callee.name in ("_vals_to_tuple",):
+                    continue
+                cparams = [a.arg for a in callee.node.args.args]
+                cseeds = {cparams[i + off] for i in hit if i + off < len(cparams)}
+                cder = _derived_names(callee, cseeds, from_reads=False)
+                for n in walk(callee.node, into_defs=True):
+                    if isinstance(n, ast.BinOp) and isinstance(n.op, (ast.Add, ast.Sub, ast.Mult, ast.Div, ast.FloorDiv,
+                                                                      ast.Mod, ast.Pow)) \
+                            and any(isinstance(x, ast.Name) and x.id in cder for x in (n.left, n.right)):
+                        nsite += 1
+                        problems.append(f"{f.qual} -> {callee.qual}: `{norm(n)}` computes on a component "
+                                        f"(even `x + 0.0` turns the -0.0 of the lower zero code into +0.0)")
+                    elif isinstance(n, ast.Call) and ((ap(n.func) or "") in _NUMERIC_FUNCS) \
+                            and any(isinstance(a, ast.Name) and a.id in cder for a in n.args):
+                        nsite += 1
+                        problems.append(f"{f.qual} -> {callee.qual}: `{norm(n)}` alters a component")
+    # the coordinate class the decoded components are put into stores them verbatim
+    cc = repo.class_attr(tcls, "COORD_CLS")
+    coord = None
+    if cc is not None:
+        p_ = ap(cc) or ""
+        owner = next((k for k in repo.mro(tcls) if any(isinstance(st, ast.Assign) and any(
+            isinstance(t, ast.Name) and t.id == "COORD_CLS" for t in st.targets) for st in k.node.body)), tcls)
+        coord = _resolve_cls(repo, owner.module, cc)
+    if coord is not None:
+        init = repo.lookup_method(coord, "__init__")
+        if init is not None:
+            iparams = {a.arg for a in init.node.args.args[1:]}
+            for n in walk(init.node):
+                pairs_ = []
+                if isinstance(n, ast.Assign):
+                    for t in n.targets:
+                        if isinstance(t, (ast.Tuple, ast.List)) and isinstance(n.value, (ast.Tuple, ast.List)) \
+                                and len(t.elts) == len(n.value.elts):
+                            pairs_ += list(zip(t.elts, n.value.elts))
+                        else:
+                            pairs_.append((t, n.value))
+                elif isinstance(n, ast.AnnAssign) and n.value is not None:
+                    pairs_.append((n.target, n.value))
+                for t, v in pairs_:
+                    if not ((ap(t) or "").startswith("self.")):
+                        continue
+                    used = [x for x in ast.walk(v) if isinstance(x, ast.Name) and x.id in iparams]
+                    from ..core import facts as _facts
+                    cond = [e for e, _pol in _facts(n, init.node)
+                            if any(isinstance(x, ast.Name) and x.id in iparams for x in ast.walk(e))]
+                    if cond:
+                        problems.append(f"{init.qual}: `{norm(n)}` happens only under `{norm(cond[0])}`: the stored "
+                                        f"component depends on a test of the component (-0.0 is falsy / compares equal "
+                                        f"to 0.0)")
+                        continue
+                    if not used:
+                        continue
+                    inner = v.args[0] if isinstance(v, ast.Call) and ap(v.func) == "float" and len(v.args) == 1 \
+                        and not v.keywords else v
+                    if not isinstance(inner, ast.Name):
+                        problems.append(f"{init.qual}: `{norm(n)}` does not store the component verbatim "
+                                        f"(a truth test / default / arithmetic on it loses e.g. the sign of -0.0)")
     ctx.stats["C10.R3.vector component transform sites"] = ctx.stats.get("C10.R3.vector component transform sites", 0) + nsite
     ctx.ob("C10.R3", f"{inst.key}: vector form hands components through unaltered (clamps enclose the decoded range)",
            not problems, where, "; ".join(problems[:3]) + (": raws decoding outside that clamp re-encode to the clamp's "
